@@ -72,8 +72,20 @@ inductive Val
   | str (s : List Char)
 deriving Repr, DecidableEq
 
+/-- JSON values: results of queries, and the content of Json fields -/
+inductive J
+  | null
+  | bool (b : Bool)
+  | int (i : Int)
+  | str (s : List Char)
+  | id (n : Nat)
+  | obj (fields : List (String × J))
+  | arr (items : List J)
+deriving Repr
+
 inductive FKind
   | int | str | bool
+  | json                    -- a Json field: any JSON value
   | ref (target : Nat)      -- a reference to one row of entity `target`
   | arr (target : Nat)      -- references to any number of rows of entity `target`
 deriving Repr, DecidableEq
@@ -92,7 +104,8 @@ structure Row where
   ent : Nat
   vals : List (Nat × Val)          -- field ↦ stored scalar (an absent field has no entry)
   refs : List (Nat × List Nat)     -- field ↦ ids of the referenced rows
-deriving Repr, DecidableEq
+  jsons : List (Nat × J) := []     -- Json field ↦ stored value
+deriving Repr
 
 abbrev Data := List Row
 
@@ -103,11 +116,18 @@ def lookup {α : Type} (k : Nat) : List (Nat × α) → Option α
   | (a, v) :: t => if a = k then some v else lookup k t
 
 def Row.stored (r : Row) (fld : Nat) : Option Val := lookup fld r.vals
+def Row.json (r : Row) (fld : Nat) : Option J := lookup fld r.jsons
 def Row.targets (r : Row) (fld : Nat) : List Nat := (lookup fld r.refs).getD []
 
 /-! ## Queries -/
 
 inductive Cmp | eq | ne | lt | le | gt | ge
+deriving Repr, DecidableEq
+
+/-- one step of a json selector: `.name` or `[index]` -/
+inductive PathSeg
+  | key (k : String)
+  | idx (i : Nat)
 deriving Repr, DecidableEq
 
 structure Filter where
@@ -118,6 +138,7 @@ structure Filter where
   isParam : Bool        -- the value was given as a parameter
   name : String := ""   -- the name typed in the filter (used for reference fields and aggregate aliases)
   onRef : Bool := false -- `field = null` / `field != null` on a reference field
+  jpath : Option (List PathSeg) := none   -- `field->$.a.b[0] op value` on a Json field
 deriving Repr, DecidableEq
 
 structure Order where
@@ -135,6 +156,7 @@ mutual
     | scalar (key : String) (fld : Nat)
     | id (key : String)
     | agg (key : String) (fn : AggFn) (fld : Nat)     -- `key: count()`, `key: min(field)`, `key: max(field)`
+    | json (key : String) (fld : Nat) (path : List PathSeg)   -- `key: field->$.a.b[0]`
     | sub (key : String) (fld : Nat) (optional : Bool) (q : Query)   -- optional: `nullable(key)`
   inductive Query
     | mk (ent : Nat) (sels : List Sel) (filters : List Filter) (orders : List Order)
@@ -150,23 +172,54 @@ def Query.skip : Query → Nat | .mk _ _ _ _ _ s _ _ => s
 def Query.after : Query → List Val | .mk _ _ _ _ _ _ a _ => a
 def Query.before : Query → List Val | .mk _ _ _ _ _ _ _ b => b
 
-/-! ## Results -/
-
-inductive J
-  | null
-  | bool (b : Bool)
-  | int (i : Int)
-  | str (s : List Char)
-  | id (n : Nat)
-  | obj (fields : List (String × J))
-  | arr (items : List J)
-deriving Repr
-
 def J.ofVal : Val → J
   | .null => .null
   | .bool b => .bool b
   | .int i => .int i
   | .str s => .str s
+
+/-! ## Json fields -/
+
+/-- the value at a path of a JSON value -/
+def jget : J → List PathSeg → Option J
+  | j, [] => some j
+  | .obj fs, .key k :: rest => (fs.find? (·.1 = k)).bind fun p => jget p.2 rest
+  | .arr l, .idx i :: rest => (l[i]?).bind fun x => jget x rest
+  | _, _ => none
+
+mutual
+  /-- minified JSON text (strings of the covered data sets need no escapes) -/
+  def jsonChars : Nat → J → List Char
+    | 0, _ => []
+    | fuel + 1, j =>
+      match j with
+      | .null => "null".toList
+      | .bool b => (if b then "true" else "false").toList
+      | .int i => (toString i).toList
+      | .str s => '"' :: (s ++ ['"'])
+      | .id n => (toString n).toList
+      | .obj fs => '{' :: (jsonFields fuel fs ++ ['}'])
+      | .arr l => '[' :: (jsonItems fuel l ++ [']'])
+  def jsonFields : Nat → List (String × J) → List Char
+    | 0, _ => []
+    | _, [] => []
+    | fuel + 1, [(k, v)] => '"' :: (k.toList ++ ['"', ':'] ++ jsonChars fuel v)
+    | fuel + 1, (k, v) :: rest => '"' :: (k.toList ++ ['"', ':'] ++ jsonChars fuel v ++ [','] ++ jsonFields fuel rest)
+  def jsonItems : Nat → List J → List Char
+    | 0, _ => []
+    | _, [] => []
+    | fuel + 1, [v] => jsonChars fuel v
+    | fuel + 1, v :: rest => jsonChars fuel v ++ [','] ++ jsonItems fuel rest
+end
+
+/-- what a comparison sees of a JSON value: scalars as such, objects and arrays as their text -/
+def jleaf : Option J → Val
+  | some (.int i) => .int i
+  | some (.str s) => .str s
+  | some (.bool b) => .bool b
+  | some (.obj fs) => .str (jsonChars 64 (.obj fs))
+  | some (.arr l) => .str (jsonChars 64 (.arr l))
+  | _ => .null
 
 /-! ## Scalars: what a selection returns, what a comparison sees -/
 
@@ -228,6 +281,17 @@ def compare? (op : Cmp) (a b : Val) : Bool :=
     | .le => !b.lt a
     | .gt => b.lt a
     | .ge => !a.lt b
+
+/-- a filter through a json selector -/
+def jsonFilterHolds (r : Row) (f : Filter) (path : List PathSeg) : Bool :=
+  let x := jleaf ((r.json f.fld).bind fun j => jget j path)
+  match f.value with
+  | .null =>
+    (match f.op with
+     | .eq => x = .null
+     | .ne => x ≠ .null
+     | _ => false)
+  | v => compare? f.op x v
 
 /-- one filter on one row -/
 def filterHolds (d : Defects) (s : Schema) (ent : Nat) (r : Row) (f : Filter) : Bool :=
@@ -333,8 +397,14 @@ mutual
 
   /-- one filter of `q` on the row `r`: a scalar filter, or `= null` / `!= null` on a reference field -/
   def holds (d : Defects) (s : Schema) (data : Data) : Nat → String → Query → Row → Filter → Bool
-    | 0, _, q, r, f => if f.onRef then false else filterHolds d s q.ent r f
+    | 0, _, q, r, f =>
+      match f.jpath with
+      | some path => jsonFilterHolds r f path
+      | none => if f.onRef then false else filterHolds d s q.ent r f
     | fuel + 1, myKey, q, r, f =>
+      match f.jpath with
+      | some path => jsonFilterHolds r f path
+      | none =>
       if f.onRef then
         let present : Bool :=
           if d.refFilterNeedsSelection then
@@ -369,6 +439,7 @@ mutual
     | _, _, _, .scalar _ _ => true
     | _, _, _, .id _ => true
     | _, _, _, .agg _ _ _ => true
+    | _, _, _, .json _ _ _ => true
     | 0, _, _, .sub _ _ _ _ => false
     | fuel + 1, myKey, r, .sub key fld optional q =>
       match fieldDef s r.ent fld with
@@ -389,10 +460,14 @@ mutual
         match sel with
         | .scalar key fld =>
           (key, match fieldDef s r.ent fld with
-                | some fd => J.ofVal (selected d fd (r.stored fld))
+                | some fd =>
+                  (match fd.kind with
+                   | .json => (r.json fld).getD .null          -- a Json field selected as a whole
+                   | _ => J.ofVal (selected d fd (r.stored fld)))
                 | none => .null)
         | .id key => (key, .id r.id)
         | .agg key _ _ => (key, .null)
+        | .json key fld path => (key, ((r.json fld).bind fun j => jget j path).getD .null)
         | .sub key fld _ sq =>
           (key, match fieldDef s r.ent fld with
                 | some fd =>
